@@ -29,7 +29,7 @@ ASSUMPTIONS = [
 ]
 
 NUMS = ["0", "1", "-4", "+5", "12", "1_000", "1e3", "1.5", "-2.25", ".5", "5.", "inf", "-inf", "nan", "Infinity", "0x10", "1,5",
-        "١٢", "1e400", "007", "--1", "1 2"]
+        "١٢", "1e400", "007", "--1", "1 2", "9" * 310, "-" + "9" * 330, "1" + "0" * 308]
 TEXTS = ["a", "b", "x y", "N/A", "None", "true", "é", "a,b", "a;b", 'q"t', '""', "line\nbreak", "cr\rlf", "tab\there", "pipe|d",
          "'", "end\r\n", " ", "\x0b"]
 BLANKS = ["", " ", "  ", "\t", " \t "]
